@@ -17,7 +17,14 @@ int printf(const char *fmt, ...) {
 	va_list ap; va_start(ap, fmt);
 	if (streq(fmt, "b %u, ")) put(va_arg(ap, unsigned), 1);
 	else if (streq(fmt, "z %llu, ") || streq(fmt, "z %llu ")) { unsigned long long n = va_arg(ap, unsigned long long); if (n == 0 || n > OBJMAX + 8) bad = 1; else ipos += n; /* image starts zeroed, positions only grow */ }
-	else if (streq(fmt, "%c ")) { int c = (char)va_arg(ap, int); cur_w = c == 'b' ? 1 : c == 'h' ? 2 : c == 'w' ? 4 : c == 'l' ? 8 : 0; if (!cur_w) bad = 1; }
+	else if (streq(fmt, "%c ")) {
+#ifdef REPLAY
+		int c = (char)va_arg(ap, int);
+#else
+		int c = va_arg(ap, char);      /* CBMC hands a char argument to a user-defined variadic function unpromoted */
+#endif
+		cur_w = c == 'b' ? 1 : c == 'h' ? 2 : c == 'w' ? 4 : c == 'l' ? 8 : 0; if (!cur_w) bad = 1;
+	}
 	else if (streq(fmt, "%llu")) put(va_arg(ap, unsigned long long), cur_w);
 	else if (streq(fmt, " = align %d { ")) align_seen = va_arg(ap, int);
 	else if (streq(fmt, ".%u")) (void)va_arg(ap, unsigned);
